@@ -8,6 +8,7 @@ import (
 	"errors"
 	"io"
 	"net"
+	"os"
 	"sync"
 	"time"
 )
@@ -34,6 +35,12 @@ type halfPipe struct {
 	// endWithData: the read that hands out the last bytes also reports the end (n > 0 together with io.EOF or
 	// the injected error), as io.Reader allows and QUIC streams do on FIN
 	endWithData bool
+	// stalled: the reading peer has stopped reading and its receive window is full: writes block until the
+	// peer reads again (Unstall), the pipe fails or is closed, or the write deadline passes
+	stalled    bool
+	stallWaits int // number of times a writer had to wait
+	wdl        time.Time
+	wdlTimer   *time.Timer
 }
 
 func newHalfPipe() *halfPipe {
@@ -45,6 +52,13 @@ func newHalfPipe() *halfPipe {
 func (h *halfPipe) Write(p []byte) (int, error) {
 	h.mu.Lock()
 	defer h.mu.Unlock()
+	for h.stalled && h.werr == nil && !h.eof && len(p) > 0 {
+		if !h.wdl.IsZero() && !time.Now().Before(h.wdl) {
+			return 0, os.ErrDeadlineExceeded
+		}
+		h.stallWaits++
+		h.cond.Wait()
+	}
 	if h.werr != nil {
 		return 0, h.werr
 	}
@@ -120,6 +134,60 @@ func (h *halfPipe) Read(p []byte) (int, error) {
 		}
 	}
 	return n, nil
+}
+
+// Stall / Unstall: the reading peer stops / resumes reading (see stalled).
+func (h *halfPipe) Stall() {
+	h.mu.Lock()
+	h.stalled = true
+	h.mu.Unlock()
+}
+
+func (h *halfPipe) Unstall() {
+	h.mu.Lock()
+	h.stalled = false
+	h.cond.Broadcast()
+	h.mu.Unlock()
+}
+
+// StalledWriters reports whether a writer has had to wait because the peer does not read.
+func (h *halfPipe) StalledWriters() int {
+	h.mu.Lock()
+	defer h.mu.Unlock()
+	return h.stallWaits
+}
+
+// setWriteDeadline: a write blocked by a stalled peer fails with os.ErrDeadlineExceeded once t has passed
+// (zero = no deadline), as net.Conn and quic.SendStream specify.
+func (h *halfPipe) setWriteDeadline(t time.Time) {
+	h.mu.Lock()
+	defer h.mu.Unlock()
+	h.wdl = t
+	if h.wdlTimer != nil {
+		h.wdlTimer.Stop()
+		h.wdlTimer = nil
+	}
+	if t.IsZero() {
+		return
+	}
+	if d := time.Until(t); d <= 0 {
+		h.cond.Broadcast()
+	} else {
+		h.wdlTimer = time.AfterFunc(d, func() {
+			h.mu.Lock()
+			h.cond.Broadcast()
+			h.mu.Unlock()
+		})
+	}
+}
+
+// FailNextWrite: the next write fails with err (nothing of it is accepted); reads of the other direction are
+// not affected (a peer that reset only the receiving side, a broken pipe noticed by the writer first).
+func (h *halfPipe) FailNextWrite(err error) {
+	h.mu.Lock()
+	h.failWriteAt = h.written
+	h.failWriteE = err
+	h.mu.Unlock()
 }
 
 // CloseWrite signals EOF to the reader after buffered data.
@@ -218,8 +286,8 @@ func (c *memConn) IsClosed() bool {
 }
 func (c *memConn) LocalAddr() net.Addr                { return c.local }
 func (c *memConn) RemoteAddr() net.Addr               { return c.remote }
-func (c *memConn) SetDeadline(t time.Time) error      { return nil }
+func (c *memConn) SetDeadline(t time.Time) error      { c.w.setWriteDeadline(t); return nil }
 func (c *memConn) SetReadDeadline(t time.Time) error  { return nil }
-func (c *memConn) SetWriteDeadline(t time.Time) error { return nil }
+func (c *memConn) SetWriteDeadline(t time.Time) error { c.w.setWriteDeadline(t); return nil }
 
 var errInjected = errors.New("injected carrier fault")
